@@ -1499,6 +1499,77 @@ fn run_c17(args: &Args) -> Report {
             rep.count("server_died(C15's business)", 1);
             continue;
         }
+        // Manifest edit: a registry dependency is removed from the root's gleam.toml on disk
+        // and the server is told through workspace/didChangeWatchedFiles. The package is
+        // still under build/packages (external, never editable); the root no longer depends
+        // on it, so modules only it has must stop resolving from the root.
+        let root_listed: Vec<String> = pkgs[0].deps.clone();
+        if !root_listed.is_empty() && cr.chance(1, 2) {
+            let dropped = root_listed[cr.below(root_listed.len())].clone();
+            let p0 = &pkgs[0];
+            let mut toml = format!("name = \"{}\"\nversion = \"1.0.0\"\n\n[dependencies]\n", p0.name);
+            for d in p0.deps.iter().filter(|d| **d != dropped) {
+                toml.push_str(&format!("{d} = \"~> 1.0\"\n"));
+            }
+            for d in &p0.path_deps {
+                toml.push_str(&format!("{d} = {{ path = \"../{d}\" }}\n"));
+            }
+            std::fs::write(p0.dir.join("gleam.toml"), toml).unwrap();
+            s.notify("workspace/didChangeWatchedFiles", json!({"changes":[{"uri": file_uri(&p0.dir.join("gleam.toml").display().to_string()), "type": 2}]}));
+            rep.see("layouts", "dependency-removed-from-the-manifest-while-running");
+            let mut rp = replay.clone();
+            rp["manifest_edit"] = json!({"dropped": dropped, "opening_order": order_name});
+            // (a) editability is about where a package lives, not about who depends on it
+            for (key, want_ok) in [(dropped.clone(), false), ("app".to_string(), true)] {
+                let Some((path, text, _)) = uses_of.get(&key) else { continue };
+                let nimports = text.lines().take_while(|l| l.starts_with("import ")).count() as u32;
+                let uri = file_uri(&path.display().to_string());
+                let id = s.request("textDocument/prepareRename", json!({"textDocument":{"uri":uri},"position":{"line":nimports + 1,"character":8}}));
+                let Some(pr) = s.wait_response(id, Duration::from_secs(20)) else { died = true; break; };
+                let ok = pr.get("result").map(|r| !r.is_null()).unwrap_or(false);
+                rep.count("prepare_rename_queries_after_manifest_edit", 1);
+                if ok != want_ok {
+                    rep.violate(
+                        format!("external-package-editability:after-manifest-edit:{}", if want_ok { "local-refused" } else { "build-packages-accepted" }),
+                        format!("after `{dropped}` was removed from the root's gleam.toml: prepareRename on the own function of package `{key}` {}", if ok { "accepts" } else { "refuses" }),
+                        rp.clone(),
+                    );
+                }
+            }
+            // (b) the root's imports follow the new manifest
+            if !died {
+                if let Some((path, _t, uses)) = uses_of.get("app") {
+                    let mut vis_after: Vec<String> = vec!["app".to_string()];
+                    vis_after.extend(pkgs[0].deps.iter().filter(|d| **d != dropped).cloned());
+                    vis_after.extend(pkgs[0].path_deps.iter().cloned());
+                    for (m, line, col) in uses {
+                        let uri = file_uri(&path.display().to_string());
+                        let id = s.request("textDocument/definition", json!({"textDocument":{"uri":uri},"position":{"line":line,"character":col + 1}}));
+                        let Some(resp) = s.wait_response(id, Duration::from_secs(20)) else { died = true; break; };
+                        let cands: Vec<String> = pkgs.iter().filter(|q| vis_after.contains(&q.key)).filter_map(|q| file_of.get(&(q.key.clone(), m.clone()))).map(|f| vh::lspclient::normalise_uri(&file_uri(&f.display().to_string()))).collect();
+                        let got: Vec<String> = match resp.get("result") {
+                            Some(Value::Array(a)) => a.iter().filter_map(|l| l["uri"].as_str()).map(vh::lspclient::normalise_uri).collect(),
+                            Some(Value::Object(o)) => o.get("uri").and_then(|u| u.as_str()).map(|u| vec![vh::lspclient::normalise_uri(u)]).unwrap_or_default(),
+                            _ => vec![],
+                        };
+                        rep.count("definition_queries_after_manifest_edit", 1);
+                        let mut rq = rp.clone();
+                        rq["query"] = json!({"from_package":"app","module":m,"line":line,"col":col});
+                        if cands.is_empty() && !got.is_empty() {
+                            rep.violate("after-manifest-edit:still-resolves-to-removed-dependency", format!("`{dropped}` was removed from the root's dependencies, yet `import {m}` from the root still resolves to {got:?}"), rq);
+                        } else if !cands.is_empty() && got.is_empty() {
+                            rep.violate("after-manifest-edit:import-does-not-resolve", format!("after removing `{dropped}`, `import {m}` from the root is available in {cands:?} but answers nothing"), rq);
+                        } else if !got.iter().all(|g| cands.contains(g)) {
+                            rep.violate("after-manifest-edit:import-resolves-elsewhere", format!("after removing `{dropped}`, `import {m}` answers {got:?}, candidates {cands:?}"), rq);
+                        }
+                    }
+                }
+            }
+            if died || !s.alive() {
+                rep.count("server_died(C15's business)", 1);
+                continue;
+            }
+        }
         // free-standing file still gets answers
         let fu = file_uri(&free.display().to_string());
         let id = s.request("textDocument/hover", json!({"textDocument":{"uri":fu},"position":{"line":2,"character":19}}));
